@@ -111,6 +111,7 @@ var dtypeOf = map[string]tensor.Dtype{
 	"i8": tensor.Int8, "i16": tensor.Int16, "i32": tensor.Int32, "i64": tensor.Int64,
 	"u8": tensor.Uint8, "u16": tensor.Uint16, "u32": tensor.Uint32, "u64": tensor.Uint64,
 	"bool": tensor.Bool, "int": tensor.Int, "c64": tensor.Complex64, "c128": tensor.Complex128,
+	"string": tensor.String,
 }
 
 func dtName(d tensor.Dtype) string {
@@ -258,6 +259,14 @@ func Concretize(dt string, e Elem) (interface{}, error) {
 			return e.I != 0, nil
 		}
 		return nil, fmt.Errorf("element %+v is not a bool", e)
+	case "string":
+		switch e.Kind {
+		case "int":
+			return fmt.Sprintf("s%d", e.I), nil
+		case "rec":
+			return fmt.Sprintf("s%s%d/%d", e.C, e.N, e.D), nil
+		}
+		return fmt.Sprintf("s%v", e.B), nil
 	case "c64":
 		f, err := floatOf(e, true)
 		return complex(float32(f), 0), err
@@ -415,6 +424,16 @@ func backing(t AbsTensor) (interface{}, error) {
 				return nil, err
 			}
 			out[i] = v.(bool)
+		}
+		return out, nil
+	case "string":
+		out := make([]string, n)
+		for i := range out {
+			v, err := conv(i)
+			if err != nil {
+				return nil, err
+			}
+			out[i] = v.(string)
 		}
 		return out, nil
 	case "c64":
@@ -594,6 +613,11 @@ func Abstract(v interface{}) Elem {
 		return absInt(uint64(x), 32, false)
 	case uint64:
 		return absInt(x, 64, false)
+	case string:
+		var n int64
+		if _, err := fmt.Sscanf(x, "s%d", &n); err == nil && fmt.Sprintf("s%d", n) == x {
+			return IntElem(n)
+		}
 	case complex64:
 		if imag(x) == 0 {
 			return absFloat(float64(real(x)), true)
